@@ -316,8 +316,46 @@ impl<'a, 'c> SDriver<'a, 'c> {
         Ok(())
     }
 
+    /// Conversion attempted on a clone at an arbitrary moment: succeeds exactly at record boundaries and then
+    /// yields exactly the unread suffix of the fed bytes, starting at a record boundary of the wire.
+    pub fn probe_conversion(&mut self, cx: &mut Ctx) -> VResult {
+        let boundary = self.p.is_record_boundary();
+        let fed = self.pos;
+        let clone = self.p.clone();
+        cx.ev("probe_conversion", u64::from(boundary), 0);
+        match guard(move || clone.into_input()) {
+            Ok(Ok(v)) => {
+                vcheck!(boundary, "c03_conversion", "into_input succeeded away from a record boundary");
+                vcheck!(v.len() <= fed && v[..] == self.wire[fed - v.len()..fed], "c05_leftover", "into_input() at an arbitrary moment: {} is not the unread suffix of the fed bytes", hex(&v));
+                let at = fed - v.len();
+                vcheck!(self.m.boundaries.contains(&at), "c05_leftover", "into_input() at an arbitrary moment starts at {at}, not a record boundary of the wire");
+                vcheck!(at <= self.m.hold_limit(self.active).min(fed), "c05_leftover", "parser position {at} is beyond the record it must hold at ({})", self.m.hold_limit(self.active));
+                cx.probe("conversion_probe_ok");
+            }
+            Ok(Err(PErr::Interrupted)) => {
+                vcheck!(!boundary, "c03_conversion", "into_input refused at a record boundary");
+                cx.probe("conversion_probe_interrupted");
+            }
+            Ok(Err(e)) => vfail!("c03_conversion", "", "into_input failed with {}", err_name(&e)),
+            Err(pm) => vfail!("panic", "into_input", "{pm}"),
+        }
+        if self.p.output_buffer().is_empty() {
+            let clone = self.p.clone();
+            match guard(move || clone.into_request_parser().map(|_| ())) {
+                Ok(Ok(())) => vcheck!(boundary, "c03_conversion", "into_request_parser succeeded away from a record boundary"),
+                Ok(Err(PErr::Interrupted)) => vcheck!(!boundary, "c03_conversion", "into_request_parser refused at a record boundary"),
+                Ok(Err(e)) => vfail!("c03_conversion", "", "into_request_parser failed with {}", err_name(&e)),
+                Err(pm) => vfail!("panic", "into_request_parser", "{pm}"),
+            }
+        }
+        Ok(())
+    }
+
     /// One random caller action while reading.
     pub fn random_action(&mut self, cx: &mut Ctx, oracle: &str) -> Result<(usize, bool, bool), Violation> {
+        if cx.ch.chance(1, 12) {
+            self.probe_conversion(cx)?;
+        }
         let sb = self.p.stream_buffer().len();
         let ob = self.p.output_buffer().len();
         let space = self.p.input_buffer().len();
@@ -519,15 +557,18 @@ fn cx_dest(cx: &mut Ctx) -> usize {
 }
 
 pub const C02_PROBES: &[&str] = &[
+    "conversion_probe_ok", "conversion_probe_interrupted",
     "record_65535", "payload_moved_with_parsed_nonempty", "held_back_header_seen", "dest_len_zero", "compress_with_stream_data",
     "stopped_mid_stream", "into_input_checked", "early_advance", "lookahead_at_handoff", "exact_fill_read", "fed_after_done",
     "noise_getvalues", "noise_unknown_type", "noise_foreign_begin", "noise_stale_params", "noise_huge_record", "noise_foreign_id",
 ];
 pub const C18H_PROBES: &[&str] = &[
+    "conversion_probe_ok", "conversion_probe_interrupted",
     "noncompliant_order", "early_advance", "rejected_selection", "rejected_selection_mid_record", "held_back_header_seen",
     "stopped_mid_stream", "into_input_checked", "dest_len_zero", "compress_with_stream_data",
 ];
 pub const C05_PROBES: &[&str] = &[
+    "conversion_probe_ok", "conversion_probe_interrupted",
     "chain_requests_2plus", "lookahead_at_handoff", "handoff_full_buffer", "fed_after_done", "converted_with_stream_selected", "converted_with_unconsumed_stream_data", "stopped_mid_stream", "held_back_header_seen",
     "exact_fill_read", "parse0_on_full_buffer",
 ];
